@@ -83,3 +83,26 @@ Theorem c02_literals_from_source :
   src_resource_order = model_resource_order.
 Proof. exact lp_literals_match_source. Qed.
 Print Assumptions c02_literals_from_source.
+
+From Coq Require Import String.
+From Allfed Require Import Base.StrUtil Gen.UnitTables Model.Units Model.Report Proofs.Units Proofs.Report Proofs.Headline.
+
+(* C02 composed with C04: the number the run REPORTS (the interpreter's headline of a people-fed round) against the
+   optimum v of the physical allocation problem: never above it, and within 0.005 % of it when the later solves keep
+   every month at the floor of v (Feasible2).  That CBC returns such an assignment is what the HiGHS audit and the
+   per-instance certificates of harness/props/c02.py check. *)
+Theorem c02_headline_near_physical_optimum : forall i c a v e ii,
+  admissible i -> lp_settings_ok i c -> 0 <= v ->
+  (forall x w, Physical i ToHumans x -> achieves i ToHumans x w -> w <= v) ->
+  Feasible2 i ToHumans v a -> report (report_in i c a) = Ok (e, ii) ->
+  headline ii <= v /\ v - headline ii <= (5 # 100000) * v.
+Proof. exact headline_near_physical_optimum. Qed.
+Print Assumptions c02_headline_near_physical_optimum.
+
+Theorem c02_reported_allocation_is_physical : forall i c a v e ii,
+  admissible i -> lp_settings_ok i c -> 0 <= v ->
+  (forall x w, Physical i ToHumans x -> achieves i ToHumans x w -> w <= v) ->
+  Feasible2 i ToHumans v a -> report (report_in i c a) = Ok (e, ii) ->
+  Physical i ToHumans (proj a) /\ (forall w, achieves i ToHumans (proj a) w -> w <= v).
+Proof. exact headline_is_physically_achievable. Qed.
+Print Assumptions c02_reported_allocation_is_physical.
